@@ -1,8 +1,8 @@
 import Varpulis.Model.Filter
 import Varpulis.Driver.Value
-/-! `vmodel filter`: C09 — replays `flt <expr> | <event> => w s dw ds` (accepted by the `.where`
+/-! `vmodel filter`: C09 — replays `flt <expr> | <event> => w s dw ds s2` (accepted by the `.where`
 stream / by the sequence step through the engine; by the VPL evaluator / by `eval_predicate`
-directly), compares with the model and classifies failing inputs (`w ≠ s`) under the guards of the
+directly; by a step on the derived stream `F = T.where(e)`), compares with the model and classifies failing inputs (`w ≠ s`) under the guards of the
 known findings. -/
 namespace Varpulis.Driver.FilterD
 open Varpulis.Val Varpulis.Filter Varpulis.Driver Varpulis.Driver.ValueD
@@ -80,16 +80,16 @@ def step (st : Unit) (line : String) : Unit × String :=
   | ["new", _] => (st, "")
   | "flt" :: ws =>
     match splitBars ws, words impl with
-    | [te, tv], [w, s, _dw, _ds] =>
+    | [te, tv], [w, s, _dw, _ds, s2] =>
       match parseExpr te, parseEvent tv with
       | some (e, []), some ev =>
         let mw := whereAccepts e ev
         let ms := stepAccepts e ev
-        let model := s!"{b01 mw} {b01 ms} {b01 mw} {b01 ms}"
-        if w != s then
+        let model := s!"{b01 mw} {b01 ms} {b01 mw} {b01 ms} {b01 ms}"
+        if w != s || w != s2 then
           -- a failing input of C09; by `where_step_agree_partial` the guard fails, and says why
           match whyWeak e ev with
-          | none => (st, s!"JUDGE C09 the filter selects differently (where={w} step={s}) outside every listed guard")
+          | none => (st, s!"JUDGE C09 the filter selects differently (where={w} step={s} derived-stream step={s2}) outside every listed guard")
           | some f =>
             if model != impl then (st, s!"DIFF model={model}")
             else (st, s!"KNOWN[{findingId f}] where={w} step={s}: {findingWhy f}")
